@@ -19,6 +19,8 @@ from core import coqrun
 
 ID = 'C16'
 PROPERTY_FILE = 'C16/Property.v'
+PROPERTY_FILES = ['C16/Property.v', 'C16/GenProperty.v']
+PROPERTY_FILES_NO_GEN = ['C16/Property.v']     # checked even when the translator fails closed
 LEVEL = 'other'
 ALLOWED_AXIOMS = coqrun.REAL_AXIOMS
 
